@@ -32,7 +32,7 @@ REPO = os.environ.get("VERIF_REPO", "/repo")
 
 def _apply(text, edits):
     for (old, new, count) in edits:
-        if text.count(old) != count:
+        if (count and text.count(old) != count) or (not count and old not in text):
             return None
         text = text.replace(old, new)
     return text
